@@ -365,8 +365,12 @@ def cold_starts(rep, tier):
 
     def one(job):
         k, n = job
-        p = subprocess.run(['/venv/bin/python', '-c', COLD, REPO, str(n)], stdout=subprocess.PIPE, stderr=subprocess.PIPE,
-                           timeout=120)
+        try:
+            p = subprocess.run(['/venv/bin/python', '-c', COLD, REPO, str(n)], stdout=subprocess.PIPE, stderr=subprocess.PIPE,
+                               timeout=300)
+        except subprocess.TimeoutExpired:
+            # threads that never come back (a second of work): no rows for anyone
+            return job, {'first': ['EXC no result within 300 s'], 'after': ['EXC no result within 300 s']}
         try:
             return job, json.loads(p.stdout.decode().strip().split('\n')[-1])
         except Exception:
